@@ -48,7 +48,8 @@ fn guarded<T>(f: impl FnOnce() -> T) -> Result<T, String> {
 
 fn pat(dir: u8, p: u64) -> u8 {
     let x = (p as u32).wrapping_mul(2_654_435_761).rotate_left(7) ^ (p >> 9) as u32 ^ u32::from(dir) * 0x5bd1;
-    (x >> 13) as u8
+    // 7 bits: every payload is also valid UTF-8, so that write_fmt / write! can carry it
+    ((x >> 13) as u8) & 0x7f
 }
 /// the pattern of a direction, computed once (byte loops are slow in a debug build)
 fn pattern(dir: u8, upto: u64) -> &'static [u8] {
@@ -127,6 +128,36 @@ impl Stream {
             Stream::T(s) => s.write(b),
         }
     }
+    fn write_all(&mut self, b: &[u8]) -> tiny_std::Result<()> {
+        match self {
+            Stream::U(s) => s.write_all(b),
+            Stream::T(s) => s.write_all(b),
+        }
+    }
+    fn write_fmt_str(&mut self, t: &str) -> tiny_std::Result<()> {
+        match self {
+            Stream::U(s) => s.write_fmt(format_args!("{t}")),
+            Stream::T(s) => s.write_fmt(format_args!("{t}")),
+        }
+    }
+    fn flush(&mut self) -> tiny_std::Result<()> {
+        match self {
+            Stream::U(s) => s.flush(),
+            Stream::T(s) => s.flush(),
+        }
+    }
+    fn read_exact(&mut self, b: &mut [u8]) -> tiny_std::Result<()> {
+        match self {
+            Stream::U(s) => s.read_exact(b),
+            Stream::T(s) => s.read_exact(b),
+        }
+    }
+    fn read_to_end(&mut self, v: &mut Vec<u8>) -> tiny_std::Result<usize> {
+        match self {
+            Stream::U(s) => s.read_to_end(v),
+            Stream::T(s) => s.read_to_end(v),
+        }
+    }
     fn read(&mut self, b: &mut [u8], to: Option<Duration>) -> tiny_std::Result<usize> {
         match (self, to) {
             (Stream::U(s), _) => s.read(b),
@@ -151,7 +182,8 @@ fn set_bufs(fd: i32, snd: i64, rcv: i64) {
 }
 
 /// one direction, writer side: `n` bytes in calls of the given chunk sizes (cycled)
-fn write_all_chunks(log: &mut Log, s: &mut Stream, dir: u8, n: u64, chunks: &[u64]) -> bool {
+/// `api`: which Write entry point carries each chunk: "write" (may be short), "write_all", "write_fmt" (write!)
+fn write_all_chunks(log: &mut Log, s: &mut Stream, dir: u8, n: u64, chunks: &[u64], api: &str) -> bool {
     let mut off = 0u64;
     let mut i = 0;
     let mut buf = Vec::new();
@@ -161,39 +193,66 @@ fn write_all_chunks(log: &mut Log, s: &mut Stream, dir: u8, n: u64, chunks: &[u6
         buf.resize(want, 0);
         fill(dir, off, &mut buf);
         let st = log.start();
-        let r = guarded(|| s.write(&buf));
+        let r = guarded(|| match api {
+            "write_all" => s.write_all(&buf).map(|()| want),
+            "write_fmt" => s.write_fmt_str(std::str::from_utf8(&buf).unwrap()).map(|()| want),
+            _ => s.write(&buf),
+        });
         let (class, errno) = res_of(&r);
         let k = if let Ok(Ok(k)) = &r { *k as u64 } else { 0 };
-        log.done("write", st, json!({"req": want, "res": class, "n": k, "errno": errno, "dir": dir, "off": off}));
+        log.done("write", st, json!({"req": want, "res": class, "n": k, "errno": errno, "dir": dir, "off": off, "api": api}));
         if class != "ok" || k == 0 {
             return false;
         }
         off += k;
     }
-    true
+    let st = log.start();
+    let r = guarded(|| s.flush());
+    let (class, errno) = res_of(&r);
+    log.done("flush", st, json!({"res": class, "errno": errno, "dir": dir}));
+    class == "ok"
 }
 /// one direction, reader side: reads until `n` bytes arrived (or, with n = None, until end of stream)
-fn read_chunks(log: &mut Log, s: &mut Stream, dir: u8, n: Option<u64>, chunks: &[u64], to: Option<Duration>) -> bool {
+/// `api`: "read" (optionally time-limited), "read_exact" (chunks cut to what is still expected), "read_to_end"
+/// (one call that returns when the peer closes; only where the plan makes the peer close after its payload)
+fn read_chunks(log: &mut Log, s: &mut Stream, dir: u8, n: Option<u64>, chunks: &[u64], to: Option<Duration>, api: &str) -> bool {
     let mut off = 0u64;
     let mut i = 0;
     let mut buf = Vec::new();
     let began = Instant::now();
+    if let (Some(n), "read_to_end") = (n, api) {
+        let mut v = Vec::new();
+        let st = log.start();
+        let r = guarded(|| s.read_to_end(&mut v));
+        let (class, errno) = res_of(&r);
+        let k = v.len();
+        let p = pattern(dir, k as u64);
+        let ok = v[..] == p[..k];
+        let res = if class == "ok" && k == 0 { "eof" } else { class };
+        log.done("read", st, json!({"req": k.max(1), "res": res, "n": k, "errno": errno, "dir": dir, "off": 0, "match": ok, "bad_at": -1, "d": -1, "api": api}));
+        return class == "ok" && k as u64 == n;
+    }
     loop {
         if let Some(n) = n {
             if off >= n {
                 return true;
             }
         }
-        let want = chunks[i % chunks.len()].max(1) as usize;
+        let mut want = chunks[i % chunks.len()].max(1) as usize;
+        let exact = api == "read_exact" && n.is_some();
+        if exact {
+            want = want.min((n.unwrap() - off) as usize);
+        }
         i += 1;
         if buf.len() != want {
             // (no re-poisoning per call: a 2 MiB buffer cleared for every 4 KiB read dominated the run time)
             buf.resize(want, 0xEE);
         }
         let st = log.start();
-        let r = guarded(|| s.read(&mut buf, to));
+        let r = guarded(|| if exact { s.read_exact(&mut buf).map(|()| want) } else { s.read(&mut buf, to) });
         let (class, errno) = res_of(&r);
         let k = if let Ok(Ok(k)) = &r { *k } else { 0 };
+        let to = if exact { None } else { to };
         let mut bad: i64 = -1;
         let kk = k.min(want);
         let p = pattern(dir, off + kk as u64);
@@ -495,12 +554,12 @@ fn run_stream_plan(id: usize, plan: &Value, workdir: &str) -> Value {
         // phase 1: client -> server
         sleep_ms(ms(&plan["cs"]["reader_delay_ms"]));
         let to = plan["cs"]["read_to_us"].as_u64().filter(|_| matches!(s, Stream::T(_))).map(Duration::from_micros);
-        if !read_chunks(&mut log, &mut s, 1, Some(plan["cs"]["n"].as_u64().unwrap()), &u64s(&plan["cs"]["rchunks"]), to) {
+        if !read_chunks(&mut log, &mut s, 1, Some(plan["cs"]["n"].as_u64().unwrap()), &u64s(&plan["cs"]["rchunks"]), to, plan["cs"]["rapi"].as_str().unwrap_or("read")) {
             return log.evs;
         }
         // phase 2: server -> client
         sleep_ms(ms(&plan["sc"]["writer_delay_ms"]));
-        if !write_all_chunks(&mut log, &mut s, 2, plan["sc"]["n"].as_u64().unwrap(), &u64s(&plan["sc"]["wchunks"])) {
+        if !write_all_chunks(&mut log, &mut s, 2, plan["sc"]["n"].as_u64().unwrap(), &u64s(&plan["sc"]["wchunks"]), plan["sc"]["wapi"].as_str().unwrap_or("write")) {
             return log.evs;
         }
         // phase 3: close order
@@ -509,7 +568,7 @@ fn run_stream_plan(id: usize, plan: &Value, workdir: &str) -> Value {
             drop(s);
             log.done("close", st, json!({"res": "ok"}));
         } else {
-            read_chunks(&mut log, &mut s, 1, None, &[64], None);
+            read_chunks(&mut log, &mut s, 1, None, &[64], None, "read");
             let st = log.start();
             drop(s);
             log.done("close", st, json!({"res": "ok"}));
@@ -599,12 +658,12 @@ fn run_stream_plan(id: usize, plan: &Value, workdir: &str) -> Value {
             stage_c.reach(4);
         }
         sleep_ms(ms(&plan["cs"]["writer_delay_ms"]));
-        if !write_all_chunks(&mut log, &mut s, 1, plan["cs"]["n"].as_u64().unwrap(), &u64s(&plan["cs"]["wchunks"])) {
+        if !write_all_chunks(&mut log, &mut s, 1, plan["cs"]["n"].as_u64().unwrap(), &u64s(&plan["cs"]["wchunks"]), plan["cs"]["wapi"].as_str().unwrap_or("write")) {
             return log.evs;
         }
         sleep_ms(ms(&plan["sc"]["reader_delay_ms"]));
         let to = plan["sc"]["read_to_us"].as_u64().filter(|_| matches!(s, Stream::T(_))).map(Duration::from_micros);
-        if !read_chunks(&mut log, &mut s, 2, Some(plan["sc"]["n"].as_u64().unwrap()), &u64s(&plan["sc"]["rchunks"]), to) {
+        if !read_chunks(&mut log, &mut s, 2, Some(plan["sc"]["n"].as_u64().unwrap()), &u64s(&plan["sc"]["rchunks"]), to, plan["sc"]["rapi"].as_str().unwrap_or("read")) {
             return log.evs;
         }
         if plan["closer"].as_str().unwrap_or("c") == "c" {
@@ -612,7 +671,7 @@ fn run_stream_plan(id: usize, plan: &Value, workdir: &str) -> Value {
             drop(s);
             log.done("close", st, json!({"res": "ok"}));
         } else {
-            read_chunks(&mut log, &mut s, 2, None, &[64], None);
+            read_chunks(&mut log, &mut s, 2, None, &[64], None, "read");
             let st = log.start();
             drop(s);
             log.done("close", st, json!({"res": "ok"}));
